@@ -49,7 +49,9 @@ GInitSt(d) == [acc |-> [i \in {x.id : x \in GLeaves(d)} |-> <<>>], pos |-> <<>>,
                blocks |-> [k \in AdjFields(d) |-> <<>>], open |-> NoOpen, pending |-> "",
                posOnly |-> FALSE, dead |-> "", help |-> FALSE, n |-> 0, recent |-> 0, cut |-> 0, hp |-> <<>>, win |-> 0,
                \* the line left what the specification makes a statement about (see Wide)
-               out |-> FALSE]
+               out |-> FALSE,
+               \* an adjacent subcommand with fallback_to_usage that found nothing to work on printed its usage (its field)
+               usage |-> 0]
 
 GKill(gs, why) == [gs EXCEPT !.dead = IF @ = "" THEN why ELSE @]
 FilledIds(gs)  == {gs.open.filled[i].id : i \in DOMAIN gs.open.filled}
@@ -187,8 +189,22 @@ GStep0(d, gs0, e) ==
 \* completed it.  Help asked right there describes that command, and so does help asked anywhere after a
 \* block of the command was cut short (the command is the innermost one entered and it cannot finish);
 \* asked anywhere else it describes the level.
-GStep(d, gs0, e) ==
-  LET r == GStep0(d, gs0, e)
+\* an adjacent subcommand with `fallback_to_usage` whose name was just typed: nothing of its own yet, and it cannot
+\* succeed on nothing
+HeadFtu(d, k) == d.named[k].head.kind = "cmd" /\ "ftu" \in DOMAIN d.named[k].head /\ d.named[k].head.ftu
+BareFtu(d, gs) == gs.open.k # 0 /\ HeadFtu(d, gs.open.k) /\ gs.open.filled = <<>> /\ gs.open.words = <<>> /\ gs.pending = "" /\ ~Complete(d, gs)
+GStep(d, gs00, e) ==
+  LET r0 == GStep0(d, gs00, e)
+      gs0 == gs00
+      \* the item that follows the bare name was claimed before the command was looked for (an option declared in front
+      \* of it): the command still sees nothing at all and prints its usage instead of failing
+      \* (a single-use option takes its first occurrence only: a second one is still there for the command to see)
+      early == e.t \in {"name", "eq", "glued"} /\ \E j \in 1..(gs00.open.k - 1) :
+                  /\ IsLeaf(d.named[j]) /\ e.s \in NamesOf(d.named[j])
+                  /\ (SingleUse(d.named[j]) => gs00.acc[d.named[j].id] = <<>>)
+      r == IF BareFtu(d, gs00) /\ (r0.open.k # gs00.open.k \/ r0.open.p # gs00.open.p) /\ early /\ gs00.dead = "" /\ r0.dead = "block_cut"
+           THEN [r0 EXCEPT !.dead = "", !.usage = IF @ = 0 THEN gs00.open.k ELSE @, !.cut = gs00.cut]
+           ELSE r0
       joined == /\ gs0.open.k # 0 /\ r.open.k = 0 /\ Len(r.blocks[gs0.open.k]) = Len(gs0.blocks[gs0.open.k]) + 1
                 /\ r.acc = gs0.acc /\ r.pos = gs0.pos /\ r.dead = gs0.dead /\ r.posOnly = gs0.posOnly /\ r.help = gs0.help
       \* a block that this very item opened and completed (a command without items of its own)
@@ -421,7 +437,10 @@ GFinish(d, gs0, envv) ==
       ELSE [class |-> "stderr", why |-> [k |-> "surplus"]]
 
 GOutcome(d, gs, envv) ==
-  IF gs.help THEN [class |-> "stdout", kind |-> "help", path |-> gs.hp] ELSE GFinish(d, gs, envv)
+  LET u == IF gs.usage # 0 THEN gs.usage ELSE IF BareFtu(d, gs) /\ gs.dead = "" THEN gs.open.k ELSE 0 IN
+  \* (an earlier block of the same command that holds an invalid value has failed the run before the bare name is reached)
+  IF u # 0 /\ ~gs.posOnly /\ (\A i \in DOMAIN gs.blocks[u] : BlockVal(d.named[u], gs.blocks[u][i]).ok) THEN [class |-> "stdout", kind |-> "help", path |-> <<d.named[u].head.names[1]>>]
+  ELSE IF gs.help THEN [class |-> "stdout", kind |-> "help", path |-> gs.hp] ELSE GFinish(d, gs, envv)
 
 (* ------------------------------------------------------------------ state machine *)
 \* pairs of short flags of the level written as one item (name, letter: strings cannot be taken apart)
@@ -461,7 +480,7 @@ AdjContiguous == [][/\ \A k \in DOMAIN st.blocks : IsPrefix(st.blocks[k], st'.bl
                           (Len(st'.open.filled) + Len(st'.open.words) = Len(st.open.filled) + Len(st.open.words) + 1
                            \/ st'.pending # "")]_vars
 CutKills == [][(st.open.k # 0 /\ (st'.open.k # st.open.k \/ st'.open.p # st.open.p))
-                => (Len(st'.blocks[st.open.k]) = Len(st.blocks[st.open.k]) + 1 \/ st'.dead # "")]_vars
+                => (Len(st'.blocks[st.open.k]) = Len(st.blocks[st.open.k]) + 1 \/ st'.dead # "" \/ st'.usage # 0)]_vars
 GNoResurrection == [][st.dead # "" => GOutcome(def, st', env).class # "ok"]_vars
 (* ------------------------------------------------------------------ C03 on choices *)
 \* exchanging two neighbouring single-item occurrences of different named items - plain options or
